@@ -139,6 +139,23 @@ def make_app(scripts: List[list], rec: Rec, sleep: Callable[[float], Awaitable[N
                     except Exception as e:  # noqa
                         me["send"].append([rec.t(), st[1].get("type"), type(e).__name__])
                         rec.label("appSendRet", idx, type(e).__name__)
+                elif op == "send!":
+                    # like "send", but the application does not catch what the server raises into it: it dies with it
+                    rec.label("appSendCall", idx, st[1].get("type"))
+                    try:
+                        await send(dict(st[1]))
+                    except BaseException as e:  # noqa
+                        me["send"].append([rec.t(), st[1].get("type"), type(e).__name__])
+                        rec.label("appSendRet", idx, type(e).__name__)
+                        raise
+                    me["send"].append([rec.t(), st[1].get("type"), "ok"])
+                    rec.label("appSendRet", idx, "ok")
+                elif op == "cancel":
+                    # cancellation reaches the application at this await point (the connection itself stays up)
+                    await _cancel_here(sleep, st[1] if len(st) > 1 else "inner")
+                    break
+                elif op == "raise_group":
+                    raise ExceptionGroup("scripted group", [RuntimeError("scripted")])
                 elif op == "sleep":
                     await sleep(st[1])
                 elif op == "raise":
@@ -161,6 +178,28 @@ def make_app(scripts: List[list], rec: Rec, sleep: Callable[[float], Awaitable[N
             me["t_exit"] = rec.t()
 
     return app
+
+
+async def _cancel_here(sleep: Callable[[float], Awaitable[None]], how: str) -> None:
+    """The ways a cancellation can reach application code without the server having asked for it.
+    asyncio "inner": the application awaits something of its own that was cancelled - CancelledError propagates out of the
+    application although its task was never cancelled; asyncio "self": the application's own task is cancelled (a framework
+    timeout / disconnect handler calling `task.cancel()`) and the CancelledError is delivered at the next await.
+    trio: a cancel scope opened by the application is cancelled; `Cancelled` is raised at the checkpoint and absorbed by the
+    scope (trio never lets it travel further than the scope that owns it), after which the application ends."""
+    if sleep is asyncio.sleep:
+        if how == "self":
+            asyncio.current_task().cancel()
+            await asyncio.sleep(0)
+        else:
+            fut = asyncio.get_running_loop().create_future()
+            fut.cancel()
+            await fut
+    else:
+        import trio
+        with trio.CancelScope() as scope:
+            scope.cancel()
+            await trio.sleep(1)
 
 
 def mkconfig(cfg: dict, rec: Rec):
@@ -188,6 +227,7 @@ class ClientIO:
     async def sleep(self, seconds: float) -> None: ...
     async def settle(self) -> None: ...
     async def eof(self) -> None: ...
+    async def send_eof(self, data: bytes) -> None: ...
     async def reset(self) -> None: ...
     def fail_writes(self) -> None: ...
     def pause_writes(self) -> None: ...
@@ -229,6 +269,10 @@ class _AReader:
         self.rec = rec
 
     async def read(self, n: int) -> bytes:
+        if self.eof and self.q.empty():
+            # like asyncio.StreamReader: at end of stream read() returns b"" at once
+            self.rec.label("srvRead", 0)
+            return b""
         item = await self.q.get()
         if isinstance(item, BaseException):
             self.rec.label("srvRead", "reset")
@@ -325,6 +369,18 @@ class AsyncioIO(ClientIO):
         if not self.reader.eof:
             self.reader.eof = True
             self.reader.q.put_nowait(b"")
+        await self.settle()
+
+    async def send_eof(self, data: bytes) -> None:
+        """the last bytes and the end of the stream arrive together (data and FIN in one segment): what
+        `StreamReader.feed_data(data); feed_eof()` before the server's next read gives - `at_eof()` is true as soon as
+        the data has been read"""
+        if not self.reader.eof:
+            if data:
+                self.reader.q.put_nowait(bytes(data))
+            self.reader.eof = True
+            if not data:
+                self.reader.q.put_nowait(b"")
         await self.settle()
 
     async def reset(self) -> None:
@@ -456,6 +512,14 @@ def run_trio(cfg: dict, alpn: Optional[str], client: Callable[[ClientIO], Awaita
 
         async def eof(self) -> None:
             if not self.eof_sent:
+                self.eof_sent = True
+                self.send_ch.send_nowait(b"")
+            await self.settle()
+
+        async def send_eof(self, data: bytes) -> None:
+            if not self.eof_sent:
+                if data:
+                    self.send_ch.send_nowait(bytes(data))
                 self.eof_sent = True
                 self.send_ch.send_nowait(b"")
             await self.settle()
